@@ -196,6 +196,16 @@ class SymWorld(BaseWorld):
             self.c.assume(v.e < to_int(hi))
         return v
 
+    def index_choices(self, name, sizes):
+        """index tuples covering all of prod [0,size): one Skolem tuple if every size is symbolic, else
+        concrete axes enumerated (small) and symbolic ones Skolemised"""
+        conc = [j for j, n in enumerate(sizes) if isinstance(n, int)]
+        out = []
+        for combo in itertools.product(*[range(sizes[j]) for j in conc]):
+            ci = iter(combo)
+            out.append(tuple(next(ci) if j in conc else self.fresh_int(f"{name}{j}", 0, n) for j, n in enumerate(sizes)))
+        return out
+
     # items / labels
     def item_in(self, dim, tag):
         """an item of `dim` at an arbitrary position -> (item, position)"""
@@ -286,17 +296,28 @@ class SymWorld(BaseWorld):
 
     # ---- proof rules over finite sums (each is an instance of a lemma proved in fvc.lemmas)
     def forall_range(self, name, ranges, pred, kind="post", detail="", hyps=()):
-        idx = []
-        hs = list(hyps)
-        for j, (lo, hi) in enumerate(ranges):
-            v = self.c.fresh(f"k{j}", "int")
-            idx.append(wrap(v))
-            hs += [v >= to_int(lo), v < to_int(hi)]
-            self.c.watch(f"{name}.idx{j}", v)
-        goal = pred(tuple(idx))
-        if isinstance(goal, bool):
-            goal = z3.BoolVal(goal)
-        return self.c.prove(name, goal, kind=kind, hyps=hs, detail=detail)
+        """prove pred for all index tuples: symbolic ranges at fresh Skolem constants, small concrete
+        ranges by enumeration (so that literal indices of concrete-size axes stay literal)"""
+        conc = [j for j, (lo, hi) in enumerate(ranges) if isinstance(lo, int) and isinstance(hi, int) and hi - lo <= 4]
+        last = None
+        for combo in itertools.product(*[range(ranges[j][0], ranges[j][1]) for j in conc]):
+            idx = []
+            hs = list(hyps)
+            ci = iter(combo)
+            for j, (lo, hi) in enumerate(ranges):
+                if j in conc:
+                    idx.append(next(ci))
+                    continue
+                v = self.c.fresh(f"k{j}", "int")
+                idx.append(wrap(v))
+                hs += [v >= to_int(lo), v < to_int(hi)]
+                self.c.watch(f"{name}.idx{j}", v)
+            goal = pred(tuple(idx))
+            if isinstance(goal, bool):
+                goal = z3.BoolVal(goal)
+            nm = name if not combo else f"{name}[{','.join(map(str, combo))}]"
+            last = self.c.prove(nm, goal, kind=kind, hyps=hs, detail=detail)
+        return last
 
     def sum1(self, tag, lo, hi, f):
         """Sum_{lo <= j < hi} f(j)"""
